@@ -539,6 +539,7 @@ class Reference:
         lc = self.cells[lid]
         # a TRCL on the lattice cell moves the whole lattice (planes, translations and contents)
         t_l = self.cell_trcl(lc)
+        P0 = P
         if t_l is not None:
             P = ref.aux_point(t_l, P)
         ranges, univs = self.lattice_spec(lc)
@@ -568,9 +569,18 @@ class Reference:
             if u == (lc.u or 0):
                 out.append((('elem',), cell_reg, lc.mat, lc.rho))
                 continue
-            if lc.filltr is not None:
-                raise ref.RefError('a lattice cell with its own FILL transformation is outside the reference')
             Q2 = Q
+            if lc.filltr is not None:
+                # FILL=n (tr) on the LAT cell: in every element the universe sits in the element's frame (the
+                # lattice frame translated to the element) moved by the fill transformation.  With a TRCL on the
+                # cell as well, C05's rule applies: the TRCL places the cell, not the content.
+                ft = self.tr_by_number(lc.filltr) if isinstance(lc.filltr, int) else norm_tr(lc.filltr, lc.fillstar)
+                if t_l is not None:
+                    if [x for x in t_l[3:12]] != list(IDENT9):
+                        raise ref.RefError('LAT cell with a rotating TRCL and a FILL transformation is outside the reference')
+                    Q2 = ref.aux_point(ft, n.vsub(P0, t))
+                else:
+                    Q2 = ref.aux_point(ft, Q)
             for fid in self.by_u.get(u, []):
                 if self.cells[fid].lat:
                     raise ref.RefError('nested lattices are outside the reference')
